@@ -167,11 +167,14 @@ class Legs:
                 rep.cov["transitions"] += sim_states(g)
             summ = res["summary"]
             k = 0
-            for v in res["violations"]:
+            for v in res["violations"][:5]:   # (Report prints 20 lines in all: leave room for the other legs)
                 k += 1
                 obj = {"tp": what, "kind": "behaviour", "class": v["class"], "detail": v["detail"], "input": v.get("input"),
                        "params": res["params"]}
                 rep.violation("tp:%s:%s" % (what, v["class"]), v["detail"]["what"][:300], obj, name="tp_%s_behaviour_%d.json" % (what, k))
+            if len(res["violations"]) > 5:
+                rep.violation("tp:%s:more" % what, "%d more %s behaviours failed in the S->I replay (%d in all)"
+                              % (summ["violations"] - 5, what, summ["violations"]), summ, name="tp_%s_more.json" % what)
             if summ["violations"] and not res["violations"]:
                 rep.violation("tp:%s:unlisted" % what, "%d replay violations" % summ["violations"], summ, name="tp_%s_unlisted.json" % what)
             rep.cov["evaluations"] += summ["comparisons"]
@@ -187,7 +190,7 @@ class Legs:
             summ, t, trace = res["summary"], res["trace_result"], res["trace"]
             rep.add_tlc(t)
             rep.cov["evaluations"] += summ["events"]
-            for v in res["violations"]:
+            for v in res["violations"][:3]:
                 rep.violation("tp:%s:%s" % (what, v["class"]), json.dumps(v["detail"])[:300],
                               "".join(json.dumps(e) + "\n" for e in v.get("events", [])) or json.dumps(v),
                               name="tp_%s_trace_panic_run_%s.ndjson" % (what, v["detail"].get("run")))
